@@ -1,7 +1,196 @@
 import AmqModel.Model.ConnRun
+import AmqModel.Model.Api
+import AmqModel.Props.C20
+import AmqModel.Lemmas.ConnC05
+/-!
+# C05 — when a connection dies, every caller is released with an error; nobody hangs
+
+The I/O loop ends when a step returns an error (`ioStep` then `kill`s the state: the `IoLoop`
+and the `ConnectionState` are dropped, and with them every queue end they own).  "Released" =
+the blocked half of every client call finds its queue *disconnected* once what was queued has
+been taken — it never finds it merely empty, which is what waiting forever would be.
+
+Property theorems only; the reachable-state invariant `Conn.C05.InvD` ("an I/O end that is alive
+belongs to link 0 or to the link of a current slot; a link without I/O end has an empty FIFO; a
+dead state owns nothing") and every helper lemma live in `AmqModel/Lemmas/ConnC05.lean`.
+-/
 namespace AmqModel.Props.C05
 open AmqModel.Conn
 
-theorem placeholder : (Conn.init 1 1).dead = false := rfl
+/-- Reachable states (any history of client operations, frames, events, transport behaviour). -/
+def Reachable (c : Conn) : Prop := ∃ cm b ops, (∀ o ∈ ops, ApiLegal o) ∧ c = run (init cm b) ops
+
+/-- FATAL MAPS. A failing step ends the loop: the state is dead afterwards, for every kind of step. -/
+theorem error_ends_the_loop (c : Conn) (o : IoOp) (e : Err) (h : (ioStep c o).2.err = some e) :
+    (ioStep c o).1.dead = true := by
+  cases hd : c.dead with
+  | true => rw [(ioStep_dead hd o).1]; exact hd
+  | false =>
+    have hk : ∀ c1 w, (ioFin c1 w (some e)).1.dead = true := fun c1 _ => (kill_spec c1).2.2.2.2.2
+    cases o with
+    | frame bytes =>
+      rw [ioStep_frame hd] at h ⊢
+      rw [ioFin_err] at h; rw [h]; exact hk _ _
+    | event t =>
+      rw [ioStep_event hd] at h ⊢
+      rw [ioFin_err] at h; rw [h]; exact hk _ _
+    | write =>
+      rw [ioStep_write hd] at h ⊢
+      rw [ioFin_err] at h; rw [h]; exact hk _ _
+    | done =>
+      rw [ioStep_done hd] at h
+      split at h <;> cases h
+    | dereg => rw [ioStep_dereg hd] at h; cases h
+    | rereg => rw [ioStep_rereg hd] at h; cases h
+    | poll => rw [ioStep_poll hd] at h; cases h
+    | kill => rw [ioStep_kill hd] at h; cases h
+
+/-- The transport failures map to their specific errors. -/
+theorem write_error_maps (c : Conn) (rest : List WriteStep) (hne : c.out ≠ []) (hw : c.writes = .err :: rest) :
+    (writeToStream c).2.2 = some .ioErrorWritingSocket :=
+  C05.writeToStream_err hne hw
+
+theorem read_faults_map (c : Conn) (rest : List FrameBuffer.ReadEv)
+    (hfb : FrameBuffer.frameSize? c.fb = none) :
+    (c.reads = .eof :: rest → (readFromStream c).2 = some .unexpectedSocketClose) ∧
+    (c.reads = .ioErr :: rest → (readFromStream c).2 = some .ioErrorReadingSocket) ∧
+    (c.reads = .chunk [] :: rest → (readFromStream c).2 = some .unexpectedSocketClose) :=
+  ⟨fun hr => C05.readFromStream_fault hfb hr (res := .unexpectedSocketClose) (Or.inl ⟨rfl, rfl⟩) rfl,
+   fun hr => C05.readFromStream_fault hfb hr (res := .ioErrorReadingSocket) (Or.inr (Or.inl ⟨rfl, rfl⟩)) rfl,
+   fun hr => C05.readFromStream_fault hfb hr (res := .unexpectedSocketClose) (Or.inr (Or.inr ⟨rfl, rfl⟩)) rfl⟩
+
+/-- An unparsable frame ends the loop with MalformedFrame. -/
+theorem malformed_maps (c : Conn) (bytes : Bytes) (d : Decl) (hd : declOf c bytes = some d) (hf : d.frame = none) :
+    (processBytes c bytes).2 = some .malformedFrame :=
+  C05.processBytes_malformed hd hf
+
+/-- Every reachable state satisfies the invariants the proofs below rest on. -/
+theorem Reachable.inv {c : Conn} (hr : Reachable c) : Inv c ∧ InvC c ∧ C05.DI c := by
+  obtain ⟨cm, b, ops, hl, rfl⟩ := hr
+  exact ⟨inv_reachable cm b ops hl, invC_reachable cm b ops, C05.di_reachable cm b ops⟩
+
+/-- DEAD RELEASES EVERYBODY. In a dead state reached from a reachable one, every I/O-thread end is
+    gone: every handle's link, every consumer's sender, every listener's sender, the allocation
+    and blocked-listener queues. -/
+theorem dead_state_has_no_io_ends (c : Conn) (hr : Reachable c) (hd : c.dead = true) :
+    (∀ label lid, lookupS label c.handles = some lid → (getLink c lid).ioAlive = false) ∧
+    (∀ qid q, lookupN qid c.cqs = some q → q.txAlive = false) ∧
+    (∀ l, lstTxAlive c l = false) ∧
+    c.slots = [] ∧ c.allocReq = [] ∧ c.blockedFifo = [] := by
+  obtain ⟨_, hc, hdi⟩ := hr.inv
+  obtain ⟨hs, _, hq, hb, _⟩ := C05.dead_ok hdi hd
+  exact ⟨fun _ lid _ => C05.dead_links hdi hd lid, C05.dead_cqs hc hs, C05.dead_lst hdi hd, hs, hq, hb⟩
+
+/-- … so every later submission is refused (the caller gets the queued error or EventLoopDropped:
+    `Api.handleSend`), whatever it is and on whatever handle, … -/
+theorem dead_refuses_submissions (c : Conn) (hr : Reachable c) (hd : c.dead = true) (label : Label) (m : Msg) (req : Option Nat) (l : Label) :
+    (clientSend c label m).2 = .disconnected ∧ (allocRequest c req).2 = .disconnected ∧
+    (setBlockedRequest c l).2 = .disconnected := by
+  obtain ⟨_, _, hdi⟩ := hr.inv
+  have hio := C05.dead_links hdi hd
+  refine ⟨?_, ?_, ?_⟩
+  · unfold clientSend
+    split
+    · rfl
+    · dsimp only
+      rw [hio]; rfl
+  · unfold allocRequest
+    split
+    · rfl
+    · rw [hio]; rfl
+  · unfold setBlockedRequest
+    split
+    · rfl
+    · rw [hio]; rfl
+
+/-- … a blocked or later receive gets what was queued and then `disconnected`, never `empty`, … -/
+theorem dead_never_empty (c : Conn) (hr : Reachable c) (hd : c.dead = true) (label cl l : Label) :
+    (clientRecv c label cl).2 ≠ .empty ∧ (consRecv c cl).2 ≠ .empty ∧ (lstRecv c l).2 ≠ .empty ∧
+    (allocReply c label).2 ≠ .empty := by
+  obtain ⟨_, hc, hdi⟩ := hr.inv
+  have hio := C05.dead_links hdi hd
+  have hs := (C05.dead_ok hdi hd).1
+  refine ⟨?_, ?_, ?_, ?_⟩
+  · unfold clientRecv
+    split
+    · simp
+    · dsimp only
+      split
+      · rw [hio]; simp
+      · split <;> simp
+  · unfold consRecv
+    split
+    · simp
+    · split
+      · simp
+      · rename_i qid _ _ q hq
+        split
+        · simp
+        · rw [C05.dead_cqs hc hs qid q hq]; simp
+  · unfold lstRecv
+    split
+    · simp
+    · split
+      · simp
+      · split
+        · simp
+        · rw [C05.dead_lst hdi hd l]; simp
+  · unfold allocReply
+    split
+    · simp
+    · split
+      · rw [hio]; simp
+      · simp
+      · simp
+
+/-- … and each receive takes one entry off a finite queue, so after finitely many receives the
+    caller sees `disconnected` (every consumer queue terminates). -/
+theorem dead_queue_drains (c : Conn) (hr : Reachable c) (hd : c.dead = true) (cl : Label) (qid : Nat) (q : CQ)
+    (hl : lookupS cl c.consLabels = some qid) (hq : lookupN qid c.cqs = some q) :
+    (q.msgs = [] → (consRecv c cl).2 = .disconnected) ∧
+    (∀ m rest, q.msgs = m :: rest → (consRecv c cl).2 = .got m ∧
+        lookupN qid (consRecv c cl).1.cqs = some { q with msgs := rest }) := by
+  obtain ⟨_, hc, hdi⟩ := hr.inv
+  have hs := (C05.dead_ok hdi hd).1
+  have htx := C05.dead_cqs hc hs qid q hq
+  refine ⟨fun hm => ?_, fun m rest hm => ?_⟩
+  · unfold consRecv
+    simp only [hl, hq, hm, htx]
+    rfl
+  · have e : consRecv c cl =
+        ({ c with cqs := setN qid { q with msgs := rest } c.cqs }, .got m) := by
+      unfold consRecv
+      simp only [hl, hq, hm]
+    rw [e]
+    exact ⟨rfl, lookupN_setN_self _ _ _⟩
+
+/-- Dead states stay dead, and no client operation resurrects an I/O end. -/
+theorem dead_is_forever (c : Conn) (o : Op) (hd : c.dead = true) : (step c o).dead = true := by
+  cases o with
+  | io o => show (ioStep c o).1.dead = true; rw [(ioStep_dead hd o).1]; exact hd
+  | client o => show (clientStep c o).1.dead = true; rw [C05.clientStep_dead]; exact hd
+  | decl d => exact hd
+  | feed evs => exact hd
+  | wscript ws => exact hd
+
+/-- NO WAIT CYCLE. The I/O thread itself never blocks: from a reachable state in which the
+    connection handle has at most one allocation outstanding (its calls are sequential: `&mut
+    Connection`) and at most one reply queued on channel 0, no step reports `hang`. -/
+theorem io_thread_never_blocks (c : Conn) (hr : Reachable c) (o : IoOp)
+    (halloc : c.allocReq.length + c.allocRep.length ≤ 1) (hrep : (getLink c 0).replies.length ≤ 1) :
+    (ioStep c o).2.err ≠ some .hang :=
+  C05.nh_ioStep hr.inv.1 halloc hrep o
+
+/-- CLOSE REPORTS THE ROOT CAUSE: `Connection::close` returns the I/O thread's own error (or
+    IoThreadPanic) whenever that thread failed — whatever the close call itself ran into — and the
+    close call's result otherwise. -/
+theorem close_reports_root_cause (c : Api.Chan) (e : Api.Err) :
+    (Api.closeImpl c (.failed e)).2 = .err e ∧
+    (Api.closeImpl c .panicked).2 = .err (.other "IoThreadPanic") ∧
+    (Api.closeImpl c .ok).2 = (Api.closeConnection c).2 :=
+  ⟨rfl, rfl, rfl⟩
+
+example : (ioStep { (Conn.init 2 2) with reads := [.eof] } (.event (.stream true false))).2.err = some .unexpectedSocketClose ∧
+    (ioStep { (Conn.init 2 2) with reads := [.eof] } (.event (.stream true false))).1.dead = true := by decide
 
 end AmqModel.Props.C05
